@@ -123,6 +123,19 @@ Definition sp_take_elem (c : cfg) (st : astate) (nx : N) (v : nat) (a : avec) (k
   | _ => None
   end.
 
+(** [n] lazy clones of the value [t] pushed, one after the other, into a vector with contents [b]: each is a new
+    value made by one Clone call; a push that finds a fixed capacity exhausted is refused (before anything is
+    cloned).  Result: the contents, the events, the next identity, and whether all [n] went in. *)
+Fixpoint sp_lazy_pushes (c : cfg) (b : avec) (t : N) (nx : N) (n : nat) : avec * list event * N * bool :=
+  match n with
+  | O => (b, [], nx, true)
+  | S n' =>
+      if full c b then (b, [], nx, false)
+      else let id := tok c nx in
+           let '(b', evs, nx', ok) := sp_lazy_pushes c (with_xs b (sp_push id (a_xs b))) t (nx + 1) n' in
+           (b', EClone t id :: evs, nx', ok)
+  end.
+
 (** ... and the handle may first be used: [KMut sk]: a new value is written through the handle (the old one
     is handed back and destroyed), [KLazyDown n sk]: n times a lazy clone of it is downcast - a new value each
     time, destroyed at once - before the handle goes to [sk] *)
@@ -147,6 +160,24 @@ Fixpoint sp_sink (c : cfg) (st : astate) (nx : N) (v : nat) (a : avec) (k : tkin
                           s_st := s_st r; s_nx := s_nx r |}
       | None => None
       end
+  | KLazy n dst sk' =>
+      (* n lazy clones of the handle's value go into another vector first; when one of the pushes is refused the
+         handle is dropped by the unwinding: the element is destroyed, the vector compacted *)
+      if Nat.eqb dst v then None
+      else match get_a dst st with
+           | None => None
+           | Some b =>
+               let '(b', evs, nx', ok) := sp_lazy_pushes c b t nx (N.to_nat n) in
+               let st1 := set_a dst (Some b') st in
+               if ok then
+                 match sp_sink c st1 nx' v a k i sk' with
+                 | Some r => Some {| s_out := s_out r; s_pk := s_pk r; s_ret := s_ret r;
+                                     s_evs := evs ++ s_evs r; s_st := s_st r; s_nx := s_nx r |}
+                 | None => None
+                 end
+               else Some (panic_res PCapacity (evs ++ drop_ev c t)
+                                    (set_a v (Some (with_xs a (take_result k i (a_xs a)))) st1) nx')
+           end
   | _ => sp_take_elem c st nx v a k i sk
   end.
 
